@@ -20,7 +20,8 @@ RULE = ("Generated: grid (9 classes, N 1..3 / 1..2 in 3-D, all spacings) x BCs (
         "plotprofile, domainIntegral, solvePDE, solveMatrixPDE, solveExplicitPDE): byte snapshot of mesh arrays, all FaceVariable "
         "components, full cell arrays, BC arrays and flags, cached boundary term, term objects before / after; two calls "
         "bit-identical; returned arrays share no memory with inputs or mesh; an in-place edit of the returned object leaves "
-        "the snapshot unchanged; a k-step time loop reusing the same term objects equals the loop rebuilding them.  "
+        "the snapshot unchanged; a builder called again after an in-place edit of its input equals the builder on fresh objects (no "
+        "stale memoisation); a k-step time loop reusing the same term objects equals the loop rebuilding them.  "
         "Non-trivial = velocities with mixed signs (masked-write paths), non-default BCs, >= 2 repeated calls (always).  "
         "Distinct = SHA-1 of the canonical case.")
 ASSUMPTIONS = ["solveExplicitPDE on an input whose values/BCs were edited may refresh that input's ghost layer (documented in its code path); nothing else may change"]
@@ -218,6 +219,42 @@ def check(case):
             W = World(case)
             m, phi, D, u, w = W.m, W.phi, W.D, W.u, W.w
             return res
+
+    # ---- freshness: a builder called again after an in-place edit of its input must reflect the new values (no result
+    # memoised on the identity of the input object); compared bit for bit with the same builder on freshly made objects
+    W = World(case)
+    m, phi, D, u, w = W.m, W.phi, W.D, W.u, W.w
+    Wf = World(case)
+
+    def scale_face(fv, f):
+        for c in (fv._xvalue, fv._yvalue, fv._zvalue):
+            if np.asarray(c).size:
+                c *= f
+    fresh_pairs = [
+        ("diffusionTerm", lambda X: pf.diffusionTerm(X.D), lambda X: scale_face(X.D, 2.0)),
+        ("convectionTerm", lambda X: pf.convectionTerm(X.u), lambda X: scale_face(X.u, -3.0)),
+        ("convectionUpwindTerm", lambda X: pf.convectionUpwindTerm(X.u), lambda X: scale_face(X.u, -0.5)),
+        ("convectionTVDupwindRHSTerm", lambda X: pf.convectionTVDupwindRHSTerm(X.u, X.phi, X.FL), lambda X: X.phi.value.__setitem__(Ellipsis, np.asarray(X.phi.value) ** 2)),
+        ("linearSourceTerm", lambda X: pf.linearSourceTerm(X.beta), lambda X: X.beta.value.__setitem__(Ellipsis, np.asarray(X.beta.value) + 1.0)),
+        ("constantSourceTerm", lambda X: pf.constantSourceTerm(X.gamma), lambda X: X.gamma.value.__setitem__(Ellipsis, np.asarray(X.gamma.value) * 3.0)),
+        ("transientTerm-alpha", lambda X: pf.transientTerm(X.phi, 0.3, X.alpha), lambda X: X.alpha.value.__setitem__(Ellipsis, np.asarray(X.alpha.value) * 1.5)),
+        ("transientTerm-phi", lambda X: pf.transientTerm(X.phi, 0.3, X.alpha), lambda X: X.phi.value.__setitem__(Ellipsis, np.asarray(X.phi.value) + 2.0)),
+        ("gradientTerm", lambda X: (X.phi.apply_BCs(), pf.gradientTerm(X.phi))[1], lambda X: X.phi.value.__setitem__(Ellipsis, np.asarray(X.phi.value) * 0.5)),
+        ("linearMean", lambda X: (X.phi.apply_BCs(), pf.linearMean(X.phi))[1], lambda X: X.phi.value.__setitem__(Ellipsis, np.asarray(X.phi.value) - 1.0)),
+        ("divergenceTerm", lambda X: pf.divergenceTerm(X.u), lambda X: scale_face(X.u, 2.0)),
+        ("boundaryConditionsTerm", lambda X: pf.boundaryConditionsTerm(X.phi.BCs), lambda X: X.phi.BCs.right.c.__setitem__(Ellipsis, np.asarray(X.phi.BCs.right.c) + 1.0)),
+    ]
+    for nm, fn, edit in fresh_pairs:
+        with np.errstate(all='ignore'):
+            fn(W)                      # first call (would fill a cache)
+            edit(W)
+            edit(Wf)
+            r_again = fn(W)
+            r_fresh = fn(Wf)
+        if content(r_again) != content(r_fresh):
+            res.fail(f"stale-result:{nm}", f"{nm} called again after an in-place edit of its input does not reflect the new values on {name}")
+    W = World(case)
+    m, phi, D, u, w = W.m, W.phi, W.D, W.u, W.w
 
     # ---- solvers
     def terms():
